@@ -755,7 +755,14 @@ class Parser:
                 self.current = next(self.stream)
 
         except StopIteration:
-            self.current = Token('eof', '', self.current.line_start, self.current.lineno, self.current.colno + self.current.bytespan[1] - self.current.bytespan[0], (0, 0), None)
+            last = self.current
+            text = self.lexer.code[last.bytespan[0]:last.bytespan[1]]
+            if '\n' in text and last.tid != 'eol':
+                # The last token spans several lines: eof is on its last line
+                colno = len(text) - text.rfind('\n') - 1
+                self.current = Token('eof', '', last.bytespan[1] - colno, last.lineno + text.count('\n'), colno, (0, 0), None)
+            else:
+                self.current = Token('eof', '', last.line_start, last.lineno, last.colno + last.bytespan[1] - last.bytespan[0], (0, 0), None)
 
     def getline(self) -> str:
         return self.lexer.getline(self.current.line_start)
